@@ -24,6 +24,11 @@ var pkgs = []string{"o", "p", "q", "r", "s"}
 func module() pipe.Tree {
 	return pipe.Tree{
 		"go.mod": pipe.GoMod(modPath, "1.24"),
+		// outputs of an earlier run in which the scripted generators still rendered something for package o:
+		// stale now (they render nothing for o), to be removed whenever o is processed, alone or not
+		"o/zz_generated.g1.go": "package o\n\nvar StaleG1 = 1\n",
+		"o/zz_generated.g2.go": "package o\n\nvar StaleG2 = 1\n",
+		"o/zz_generated.n1.go": "package o\n\nvar StaleN1 = 1\n",
 		"o/o.go": `// Package o sorts first; the scripted stateful generators record its types but render nothing for it.
 package o
 
@@ -397,8 +402,8 @@ func checkCase(c *core.Ctx, cs Case) {
 	}
 	// packages not in the run must have no generated files
 	for _, p := range pkgs {
-		if !processed[p] && len(generatedOf(t, p)) > 0 {
-			c.Fail("", cs, "package %s was not processed but has generated files", p)
+		if !processed[p] && fmt.Sprint(generatedOf(t, p)) != fmt.Sprint(generatedOf(module(), p)) {
+			c.Fail("", cs, "package %s was not processed but its generated files changed: %v", p, generatedOf(t, p))
 		}
 	}
 }
@@ -479,6 +484,6 @@ func init() {
 	core.Register(&core.Prop{
 		ID: "C05", Level: "model_checking", Run: run, Replay: replay,
 		Rule:        "every non-empty ordered selection of entrypoints out of 5 packages (r imports p, s imports q and r; o sorts first and makes the scripted stateful generators record state without rendering anything) x All on/off x generator orders, each on a pristine copy of the module; generators: stateful scripted ones without New (g1, g2 with Defer), with a custom New (n1), with a custom New that copies its receiver (n2), registered with pre-allocated reference state and no New (p1), plus runtimedoc/deepcopy/defaulter; oracle: bytes of every <base>.<gen>.go of every processed package == bytes of the run selecting that package alone IN A FRESH PROCESS == bytes of the run selecting that package alone with that generator as the only one; plus one tree of two modules (different path shape and go version) whose packages are selected alone and together in both orders; non-trivial = more than one package processed; states = distinct (processed set, All)",
-		Assumptions: []string{"each run starts from the same pristine module tree (no outputs of earlier runs)"},
+		Assumptions: []string{"each run starts from the same module tree (the only outputs of earlier runs in it are three stale files in package o)"},
 	})
 }
